@@ -1,4 +1,5 @@
 from __future__ import annotations
+import re
 import enum
 import typing
 import structlog
@@ -40,7 +41,8 @@ def get_formatter(format: Format) -> typing.Callable[[str], str]:
 
 
 def bool_to_int(expr: str) -> str:
-    return expr.replace("false", "0").replace("true", "1")
+    # Only replace the boolean constants and not parts of variable names (e.g. 'is_true')
+    return re.sub(r"\btrue\b", "1", re.sub(r"\bfalse\b", "0", expr))
 
 
 class GotranCCodePrinter(C99CodePrinter):
